@@ -109,6 +109,30 @@ theorem guid_kind (up : Nat → Bool) (n : Nat) (h : n < 2 ^ 128) (rest : Str) (
 theorem string_kind (s rest : Str) (hb : boundary rest) :
     lexOne pyCharEnv (quoteText s ++ rest) = some (.lit .str s, rest) := LitLex.string_kind s rest hb
 
+/-- decimal / exponent numbers: optional sign, any digits, a fraction and / or an exponent in either letter case -/
+theorem decimal_kind (sg : Sign) (wi ni : Nat) (fr : Option (Nat × Nat)) (ex : Expo) (hi : ni < 10 ^ (wi + 1))
+    (hf : ∀ wf nf, fr = some (wf, nf) → nf < 10 ^ (wf + 1)) (he : ex.ok) (hfe : fr ≠ none ∨ ex ≠ .none) (rest : Str) (hb : boundary rest) :
+    lexOne pyCharEnv (decimalText sg wi ni fr ex ++ rest) = some (.lit .float (decimalText sg wi ni fr ex), rest) :=
+  LitLex.decimal_kind sg wi ni fr ex hi hf he hfe rest hb
+
+/-- Booleans in any letter case: a Boolean token that keeps the spelling, whose value is the keyword's -/
+theorem bool_kind (up : Nat → Bool) (b : Bool) (rest : Str) (hb : boundary rest) :
+    lexOne pyCharEnv (caseWord up (if b then "true".toList else "false".toList) ++ rest)
+      = some (.lit .bool (caseWord up (if b then "true".toList else "false".toList)), rest)
+    ∧ pyVal .bool (caseWord up (if b then "true".toList else "false".toList)) = .ok (.bool b) :=
+  LitLex.bool_kind up b rest hb
+
+/-- null in any letter case -/
+theorem null_kind (up : Nat → Bool) (rest : Str) (hb : boundary rest) :
+    lexOne pyCharEnv (caseWord up "null".toList ++ rest) = some (.lit .null [], rest) :=
+  LitLex.null_kind up rest hb
+
+/-- geography literals: the token carries the raw content (quotes stay doubled - the library does not un-double them for this kind) -/
+theorem geography_kind (up : Nat → Bool) (content rest : Str) (hb : boundary rest) :
+    lexOne pyCharEnv (geoText up content ++ rest)
+      = some (.lit .geo (content.flatMap (fun c => if c = '\'' then ['\'', '\''] else [c])), rest) :=
+  LitLex.geography_kind up content rest hb
+
 /-- identifiers: every well-formed identifier - whether or not it starts with or contains a keyword (nullable, anything, trueness, notes, inside,
     true.x, eq, add ...) - is ONE identifier token whose namespaces are the dotted prefix and whose name is the last segment -/
 theorem ident_kind (segs : List Str) (last : Str) (h : wfIdent (segs ++ [last])) (hk : notReserved (dotted (segs ++ [last])))
